@@ -594,8 +594,22 @@ package fsm
 // assignment), bounds come from the request's key and range end
 //@ ghostfield any.sreader Iface
 //@ ghostfield any.sreq Ref
+// the filler and the size estimate are chosen as a PAIR by the request's flags (the chunk-size proof
+// of iterate$1 presumes that the estimate matches what the filler adds: [paired])
 //@ func iterFuncsFromReq
-//@   assumed
+//@   results fill, sf
+//@   requires req != nil
+//@   ensures [C09.funcs.pair] (req.KeysOnly ==> isFunc(fill, "fsm.addKeyOnly") && isFunc(sf, "fsm.sizeKeyOnly")) && (!req.KeysOnly && req.CountOnly ==> isFunc(fill, "fsm.addCountOnly") && isFunc(sf, "fsm.sizeCountOnly")) && (!req.KeysOnly && !req.CountOnly ==> isFunc(fill, "fsm.addKVPair") && isFunc(sf, "fsm.sizeKVPair"))
+//@   modifies nothing
+// what the size estimates are
+//@ func sizeKVPair
+//@   ensures [C09.size.pair] result == len(key) + len(value)
+//@   modifies nothing
+//@ func sizeKeyOnly
+//@   ensures [C09.size.key] result == len(key)
+//@   modifies nothing
+//@ func sizeCountOnly
+//@   ensures [C09.size.count] result == 0
 //@   modifies nothing
 //@ func iterate
 //@   results seq, err
